@@ -56,6 +56,9 @@ DEFAULT_PROFILE = {
     'markers': False,        # C05: every slot prints a unique number
     'choose_conds': 0.4,     # share of conditions that are [choose k]
     'matrix': True, 'zones': True, 'routines': True, 'lightloops': True,
+    'trace_loops': 0.15,     # chance that a loop body starts by printing its variables
+    'trace_vars': 0.1,       # chance of printing visible variables around calls
+    'zero_cycle': False,     # `repeat 0 with v cycle` (C04)
     'max_cost': 2500,
 }
 
@@ -337,6 +340,15 @@ class Gen:
                 self.tag('macro-of-macro')
         for _ in range(r.randint(0, 4)):
             out.append(self.s_assign(sc, fresh=True))
+        # never reassigned: their values are known wherever they are used
+        # (zone numbers, rows and columns given as variables)
+        self.known_ints = {}
+        if r.random() < self.p.get('known_ints', 0.3):
+            for name in r.sample(['zr0', 'zr1', 'zr2', 'zr3'], r.randint(1, 3)):
+                v = r.choice([0, 0, 1, 1, 2, 3, 4, 5, 7])
+                self.known_ints[name] = v
+                out.append(['assign', name, ['num', v]])
+                self.tag('known-int-var')
         return out
 
     def cost(self, stmts, depth=0):
@@ -593,17 +605,24 @@ class Gen:
         """expression whose value is a known integer in [lo, hi]"""
         v = self.rng.randint(lo, hi)
         r = self.rng.random()
-        if r < 0.6:
+        if r < 0.5:
             return ['num', v], v
-        if r < 0.8 and v >= 1:
+        if r < 0.7 and v >= 1:
             a = self.rng.randint(0, v)
             return ['bin', '+', ['num', a], ['num', v - a]], v
-        if r < 0.9:
+        if r < 0.78:
             return ['bin', '-', ['num', v + 2], ['num', 2]], v
         ms = [n for n, (t, mv) in self.macros.items()
               if t == 'int' and lo <= mv <= hi]
+        ks = [n for n, kv in getattr(self, 'known_ints', {}).items()
+              if lo <= kv <= hi]
+        if ks and (not ms or self.rng.random() < 0.6):
+            k = self.rng.choice(ks)
+            self.tag('range-by-variable')
+            return ['var', k], self.known_ints[k]
         if ms:
             m = self.rng.choice(ms)
+            self.tag('range-by-macro')
             return ['macro', m], self.macros[m][1]
         return ['num', v], v
 
@@ -829,6 +848,10 @@ class Gen:
             sc.index_vars = saved_idx + [index_var]
         try:
             body = self.sub_block(sc, depth)
+            if self.rng.random() < self.p['trace_loops'] and not self.p['markers']:
+                for v, _ in reversed(lvars):
+                    body.insert(0, ['print', ['var', v]])
+                self.tag('loop-vars-printed')
         finally:
             sc.loop_depth -= 1
             sc.loop_vars -= set(added)
@@ -927,7 +950,8 @@ class Gen:
                 return self.k_print(sc, depth)
             start = None if self.rng.random() < 0.5 else self.bound(sc)
             info = {'n': self.count_expr(sc), 'var': v, 'start': start}
-            if info['n'] == ['num', 0] or info['n'][0] != 'num':
+            if (info['n'] == ['num', 0] and not self.p['zero_cycle']) \
+                    or info['n'][0] != 'num':
                 info['n'] = ['num', self.rng.choice([1, 2, 3, 4])]
             return [['repeat', 'cycle', info,
                      self.loop_body(sc, depth, [(v, 'num')])]]
@@ -956,7 +980,7 @@ class Gen:
                 if self.rng.random() < 0.6:
                     info['with'] = ['from', iv, self.bound(sc), self.bound(sc)]
                     lvars.append((iv, 'num'))
-                elif self.nonempty(kind, info):
+                elif self.nonempty(kind, info) or self.p['zero_cycle']:
                     st = None if self.rng.random() < 0.5 else self.bound(sc)
                     info['with'] = ['cycle', iv, st]
                     lvars.append((iv, 'num'))
@@ -1010,7 +1034,17 @@ class Gen:
             return self.k_print(sc, depth)
         args = [self.arg(sc, t) for _, t in info['params']]
         self.tag('call-stmt')
-        return [['call', f, args, None]]
+        out = [['call', f, args, None]]
+        if self.rng.random() < self.p['trace_vars'] and not self.p['markers']:
+            out += self.trace(sc)
+        return out
+
+    def trace(self, sc, k=3):
+        names = self.visible(sc, ('int', 'num', 'str:light', 'str:group',
+                                  'str:location'))
+        self.rng.shuffle(names)
+        self.tag('vars-printed')
+        return [['print', ['var', n]] for n in sorted(names[:k])]
 
     def k_routine(self, sc, depth):
         cands = [n for n in ROUTINE_NAMES if n not in self.routines
@@ -1058,6 +1092,10 @@ class Gen:
                                'pure': False}
         try:
             body = self.block(rsc, self.rng.randint(1, 6), 3)
+            if params and self.rng.random() < self.p['trace_vars'] * 3 \
+                    and not self.p['markers']:
+                body = [['print', ['var', n]] for n, _ in params] + body
+                self.tag('params-printed')
             if recursive:
                 dn = [n for n, t in params if t == 'int'][0]
                 # only parameters and literals: the guard may be placed before
